@@ -190,3 +190,51 @@ fn run_jobs_on_one(jobs: &[Job]) -> Vec<JobResult> {
     // n = 1 → every job goes to child 0 in order
     run_jobs(jobs, 1)
 }
+
+/// every job in its OWN fresh OS process (process-global state is new each time);
+/// `n` children run concurrently
+pub fn run_jobs_fresh_each(jobs: &[Job], n: usize) -> Vec<JobResult> {
+    let n = n.min(jobs.len()).max(1);
+    let jobs: std::sync::Arc<Vec<Job>> = std::sync::Arc::new(jobs.to_vec());
+    let exe = std::env::current_exe().unwrap_or_else(|e| harness_error(&format!("current_exe: {e}")));
+    let mut handles = Vec::new();
+    for c in 0..n {
+        let jobs = jobs.clone();
+        let exe = exe.clone();
+        handles.push(std::thread::spawn(move || {
+            let mut out = Vec::new();
+            let mut i = c;
+            while i < jobs.len() {
+                let mut child = Command::new(&exe)
+                    .arg("worker")
+                    .arg(c.to_string())
+                    .arg(c.to_string())
+                    .stdin(Stdio::piped())
+                    .stdout(Stdio::piped())
+                    .stderr(Stdio::inherit())
+                    .spawn()
+                    .unwrap_or_else(|e| harness_error(&format!("spawn worker: {e}")));
+                let mut line = serde_json::to_string(&jobs[i]).unwrap();
+                line.push('\n');
+                {
+                    let mut cin = child.stdin.take().unwrap();
+                    let _ = cin.write_all(line.as_bytes());
+                }
+                let mut resp = String::new();
+                let mut cout = BufReader::new(child.stdout.take().unwrap());
+                if cout.read_line(&mut resp).unwrap_or(0) == 0 {
+                    let st = child.wait().ok();
+                    harness_error(&format!("fresh worker died ({st:?}) on job {}", line.trim()));
+                }
+                let _ = child.wait();
+                let r: JobResult = serde_json::from_str(&resp).unwrap_or_else(|e| harness_error(&format!("fresh worker: bad result ({e}): {resp}")));
+                out.push(r);
+                i += n;
+            }
+            out
+        }));
+    }
+    let mut all: Vec<JobResult> = handles.into_iter().flat_map(|h| h.join().unwrap_or_else(|_| harness_error("driver thread panicked"))).collect();
+    all.sort_by_key(|r| r.id);
+    all
+}
